@@ -46,3 +46,9 @@ Properties/C12.vos Properties/C12.vok Properties/C12.required_vos: Properties/C1
 Properties/C13.vo Properties/C13.glob Properties/C13.v.beautified Properties/C13.required_vo: Properties/C13.v Model/Types.vo Model/Side.vo Model/Book.vo Model/Obs.vo Proofs/NoTrade.vo
 Properties/C13.vio: Properties/C13.v Model/Types.vio Model/Side.vio Model/Book.vio Model/Obs.vio Proofs/NoTrade.vio
 Properties/C13.vos Properties/C13.vok Properties/C13.required_vos: Properties/C13.v Model/Types.vos Model/Side.vos Model/Book.vos Model/Obs.vos Proofs/NoTrade.vos
+Proofs/Ledger.vo Proofs/Ledger.glob Proofs/Ledger.v.beautified Proofs/Ledger.required_vo: Proofs/Ledger.v Model/Types.vo Model/Map.vo Model/Side.vo Model/Book.vo Proofs/Basic.vo
+Proofs/Ledger.vio: Proofs/Ledger.v Model/Types.vio Model/Map.vio Model/Side.vio Model/Book.vio Proofs/Basic.vio
+Proofs/Ledger.vos Proofs/Ledger.vok Proofs/Ledger.required_vos: Proofs/Ledger.v Model/Types.vos Model/Map.vos Model/Side.vos Model/Book.vos Proofs/Basic.vos
+Properties/C03.vo Properties/C03.glob Properties/C03.v.beautified Properties/C03.required_vo: Properties/C03.v Model/Types.vo Model/Book.vo Proofs/Ledger.vo
+Properties/C03.vio: Properties/C03.v Model/Types.vio Model/Book.vio Proofs/Ledger.vio
+Properties/C03.vos Properties/C03.vok Properties/C03.required_vos: Properties/C03.v Model/Types.vos Model/Book.vos Proofs/Ledger.vos
